@@ -1,19 +1,44 @@
 ---------------------------- MODULE MCSymbolsParts ----------------------------
-(* Random partitions (larger than what MCSymbolsConc explores exhaustively) for the free-running
-   concurrent runs of direction B: run with  tlc -simulate num=N -depth 2 -seed $VERIF_SEED .
-   Each behaviour draws one partition: NProc lists of at most MaxPer files of the universe.  The
-   validity of the runs recorded from them is decided by SymbolsTrace.tla, not here.  *)
+(* Partitions for the free-running concurrent runs of direction B (larger than what MCSymbolsConc explores
+   exhaustively): run with  tlc -simulate num=N -depth 2 -seed $VERIF_SEED .  Each behaviour draws one
+   partition of one of three kinds:
+     random     NProc lists of at most MaxPer files of the universe
+     siblings   package p.q is registered first (pre = 1: the first file of process 1 is imported before the
+                other goroutines are released); then files of p.q -- which walk through the existing child
+                p.q of node p -- are imported while other goroutines register the NEW siblings p.r1 .. p.r4
+     collide    two large files of one package that declare the same name last, one per goroutine, started
+                together: their conflict checks overlap, and exactly one of the two Imports must fail
+   The validity of the runs recorded from them is decided by SymbolsTrace.tla, not here.  *)
 EXTENDS Symbols, Json
 
 CONSTANTS NProc, MaxPer
 
 VARIABLE parts
 Usable == {f \in FileIds : Compilable(f)}
+QFiles == {f \in Usable : FDOf(f).pkg = <<"p", "q">> /\ FDOf(f).deps = <<>>}
+Sibs   == {f \in Usable : Len(FDOf(f).pkg) = 2 /\ FDOf(f).pkg[1] = "p" /\ FDOf(f).pkg[2] # "q"}
+Bigs   == {f \in Usable : FDOf(f).pad > 0}
+Kinds  == <<"random", "random", "siblings", "collide">>
+
+Random == [p \in 1..NProc |->
+             [i \in 1..RandomElement(IF p = 1 THEN 1..MaxPer ELSE 0..MaxPer) |-> RandomElement(Usable)]]
+Siblings ==
+  << <<RandomElement(QFiles), RandomElement(QFiles), RandomElement(Sibs)>>,
+     <<RandomElement(Sibs), RandomElement(QFiles), RandomElement(Sibs)>>,
+     <<RandomElement(Sibs), RandomElement(Sibs), RandomElement(QFiles)>> >>
+Collide ==
+  CHOOSE ps \in {<< <<a>>, <<b>> >> : a \in {RandomElement(Bigs)}, b \in Bigs} : ps[1][1] # ps[2][1]
 
 Init == parts = <<>>
+(* bound variables fix one random draw (a LET definition would be drawn again at every use) *)
 Draw == /\ parts = <<>>
-        /\ parts' = [p \in 1..NProc |->
-                       [i \in 1..RandomElement(IF p = 1 THEN 1..MaxPer ELSE 0..MaxPer) |-> RandomElement(Usable)]]
-        /\ PrintT("CASE " \o ToJson([kind |-> "parts", parts |-> parts']))
+        /\ \E k \in {IF Sibs = {} \/ QFiles = {} \/ Cardinality(Bigs) < 2 THEN "random"
+                      ELSE Kinds[RandomElement(1..Len(Kinds))]} :
+           \E ps \in {CASE k = "siblings" -> Siblings [] k = "collide" -> Collide [] OTHER -> Random} :
+              /\ parts' = ps
+              /\ PrintT("CASE " \o ToJson([kind |-> "parts", flavour |-> k, parts |-> ps,
+                                          pre |-> IF k = "siblings" THEN 1 ELSE 0,
+                                          collide |-> UnionHasCollision(
+                                             UNION {{ps[p][i] : i \in 1..Len(ps[p])} : p \in 1..Len(ps)})]))
 Spec == Init /\ [][Draw]_parts
 =============================================================================
